@@ -247,3 +247,8 @@ LEVEL_TEXT = ("Lean theorems about the model of ExecSelect/SelectExpr/Expr: outp
 LEVEL_NOTE = ("IEEE rounding/NaN/Inf are outside every theorem (numbers are an abstract type in proofs, Float in the driver). "
               "Integer operators are modelled on int64-exact operands only; other operands are skipped as out-of-model and counted.")
 TECHNIQUE = "Lean 4 proof (structural induction over select list / expression) + differential correspondence"
+
+# the text of the functions this property's model mirrors is a regenerated fact (Obligations/PinC02: closed by rfl)
+FACTS = True
+LEAN_TARGETS = list(LEAN_TARGETS) + ["Genql.Obligations.PinC02"]
+THEOREMS = list(THEOREMS) + ["Genql.Obligations.PinC02.pinned_text"]
